@@ -94,6 +94,7 @@ type rawReq struct {
 	hdr                   [][2]string
 	body                  []byte
 	keepCL                bool
+	chunked               bool // send the body with Transfer-Encoding: chunked (the server sees ContentLength == -1)
 }
 
 func parseRaw(wire []byte) *rawReq {
@@ -146,6 +147,24 @@ func parseRaw(wire []byte) *rawReq {
 func (r *rawReq) bytes() []byte {
 	var b bytes.Buffer
 	fmt.Fprintf(&b, "%s %s %s\r\n", r.method, r.target, r.proto)
+	if r.chunked {
+		for _, h := range r.hdr {
+			if !strings.EqualFold(h[0], "Content-Length") {
+				fmt.Fprintf(&b, "%s: %s\r\n", h[0], h[1])
+			}
+		}
+		b.WriteString("Transfer-Encoding: chunked\r\n\r\n")
+		for i := 0; i < len(r.body); {
+			n := 7
+			if i+n > len(r.body) {
+				n = len(r.body) - i
+			}
+			fmt.Fprintf(&b, "%x\r\n%s\r\n", n, r.body[i:i+n])
+			i += n
+		}
+		b.WriteString("0\r\n\r\n")
+		return b.Bytes()
+	}
 	hasCL := false
 	for _, h := range r.hdr {
 		if strings.EqualFold(h[0], "Content-Length") {
@@ -433,6 +452,9 @@ func (r *rawReq) mutate(rng *rand.Rand, which int) string {
 			r.body = bytes.ReplaceAll(r.body, []byte(`:`), []byte(`:null,"x":`))
 			return "body nulls injected"
 		}
+	case 12:
+		r.chunked = true
+		return "body sent chunked (unknown length)"
 	case 11: // content-length games
 		r.hdr = append(r.hdr, [2]string{"Content-Length", strconv.Itoa(len(r.body) + []int{-1, 1, 100000}[rng.IntN(3)])})
 		return "wrong content-length"
@@ -461,7 +483,7 @@ func drawRaw(t *tape.Tape, p *harness.Pkg, ops []int, i int, maxMut int) harness
 	rng := rand.New(rand.NewPCG(rp.ValueSeed, 99))
 	n := t.Choose(maxMut+1, "mutations")
 	for k := 0; k < n; k++ {
-		rp.RawDesc = append(rp.RawDesc, r.mutate(rng, t.Choose(12, "mutation")))
+		rp.RawDesc = append(rp.RawDesc, r.mutate(rng, t.Choose(13, "mutation")))
 	}
 	rp.Raw = r.bytes()
 	return rp
@@ -491,6 +513,19 @@ func specialRaw(t *tape.Tape, p *harness.Pkg, ops []int, i int) harness.ReqPlan 
 		}
 		r.method, r.target, r.body = "GET", strings.Join(segs, "/")+"/openapi.yaml", nil
 		rp.RawDesc = []string{"spec file request " + r.target}
+		switch t.Choose(4, "spec-request-form") {
+		case 1:
+			r.method = "HEAD"
+			rp.RawDesc = append(rp.RawDesc, "HEAD")
+		case 2:
+			a := t.Choose(400, "range-from")
+			rg := fmt.Sprintf("bytes=%d-%d", a, a+1+t.Choose(200, "range-len"))
+			r.hdr = append(r.hdr, [2]string{"Range", rg})
+			rp.RawDesc = append(rp.RawDesc, "Range: "+rg)
+		case 3:
+			r.hdr = append(r.hdr, [2]string{"If-None-Match", `"x"`}, [2]string{"Accept-Encoding", "gzip"})
+			rp.RawDesc = append(rp.RawDesc, "conditional + gzip")
+		}
 	case 1:
 		r.target = path + "/definitely/not/declared"
 		rp.RawDesc = []string{"not-found request"}
